@@ -77,6 +77,12 @@ def render(lexemes: list[str], sep: str) -> str:
     return out
 
 
+def _untagged(t):  # noqa: ANN001, ANN202
+    if isinstance(t, tuple):
+        return tuple(_untagged(x) for x in t if not (isinstance(x, tuple) and len(x) == 2 and x[0] == "#"))
+    return t
+
+
 def check_front_end(repo: Repo, where: str, thorough: bool = False, only=None) -> tuple[int, list[tuple[str, str]]]:  # noqa: ANN001
     """``only``: a predicate on token lists; just the matching expression cases are evaluated (C12 takes the literal ones)."""
     cm = program(repo, where)
@@ -110,8 +116,13 @@ def check_front_end(repo: Repo, where: str, thorough: bool = False, only=None) -
                 continue
             r = rules.get("r") if isinstance(rules, dict) else None
             got = tokparse.tree(r.__dict__.get("expression")) if isinstance(r, Obj) else None
-            if got != want:
-                bad.append((f"the rule built is not the one the text denotes ({sname} between the tokens)", f"{text!r} builds {got}, denoted {want}"))
+            if only is not None:
+                # (the literal clause: which node carries which tag is C10's, not this selection's)
+                got, want_ = _untagged(got), _untagged(want)
+            else:
+                want_ = want
+            if got != want_:
+                bad.append((f"the rule built is not the one the text denotes ({sname} between the tokens)", f"{text!r} builds {got}, denoted {want_}"))
     if only is not None:
         return n, bad
     # a keyword is a whole word: a longer identifier that begins with one is an identifier (identifier = @{ !"PUSH" ~
